@@ -737,10 +737,32 @@ def rule_U3(ctx) -> None:
 # S2/U4 - byte accounting on every iteration
 
 
+def _advance_sites(g: CFG, load: ast.AST):
+    """where the next field is taken from the reader: the head of `for parsed in load_fields(...)`
+    (its 'iter' edge) or a statement calling next(<generator made by load_fields(...)>).
+    -> list of (node, edge label to follow after the advance or None for all normal edges)"""
+    gens = set()
+    for n in ast.walk(load):
+        if isinstance(n, ast.Assign) and isinstance(n.value, ast.Call) and ast.unparse(n.value.func) in ("load_fields", "parse_fields", "iter"):
+            for t in n.targets:
+                if isinstance(t, ast.Name):
+                    gens.add(t.id)
+    out = []
+    for nd in g.nodes:
+        if nd.kind == "loop" and isinstance(nd.stmt, ast.For) and isinstance(nd.stmt.iter, ast.Call) \
+                and ast.unparse(nd.stmt.iter.func) in ("load_fields", "parse_fields"):
+            out.append((nd, "iter"))
+        elif nd.kind == "stmt" and nd.stmt is not None:
+            for c in own_nodes(nd.stmt):
+                if isinstance(c, ast.Call) and ast.unparse(c.func) == "next" and c.args and (
+                        (isinstance(c.args[0], ast.Name) and c.args[0].id in gens) or
+                        (isinstance(c.args[0], ast.Call) and ast.unparse(c.args[0].func) in ("load_fields", "parse_fields"))):
+                    out.append((nd, None))
+    return out
+
+
 def _load_loop_nodes(g: CFG, load: ast.AST):
-    heads = [nd for nd in g.nodes if nd.kind == "loop" and isinstance(nd.stmt, ast.For) and isinstance(nd.stmt.iter, ast.Call)
-             and ast.unparse(nd.stmt.iter.func) in ("load_fields", "parse_fields")]
-    return heads
+    return [nd for nd, _ in _advance_sites(g, load)]
 
 
 def _size_param(load: ast.AST) -> str:
@@ -815,12 +837,14 @@ def rule_S2(ctx, rule: str = "S2") -> None:
                 stack.append(m_)
         return seen
 
-    for h in heads:
-        starts = [m_ for m_, lab in g.succ[h.id] if lab == "iter"]
+    sites = _advance_sites(g, load)
+    advids = {nd.id for nd, _ in sites}
+    for h, lab0 in sites:
+        starts = [m_ for m_, lab in g.succ[h.id] if (lab == lab0 if lab0 else normal_edge(lab))]
         back = reach(starts, accids)
-        if h.id in back:
+        if back & advids:
             # find the bypassing path for the report
-            path = g.find_path(h.id, {h.id}, avoid=accids, labels=lambda l: normal_edge(l) and l != "done")
+            path = g.find_path(h.id, advids, avoid=accids, labels=lambda l: normal_edge(l) and l != "done")
             ctx.refuted(rule, "load:byte-accounting", "bypass", mod.loc(load),
                         "an iteration of the field loop can reach the next field without `read += len(parsed.raw)` (size given): "
                         + (g.describe(path) if path else ""),
@@ -920,6 +944,11 @@ def rule_S1(ctx) -> None:
         nr = frozenset(rel & keep)
         return (nr, zero) if nr else None
 
+    sites = _advance_sites(g, load)
+
+    def al_is_stmt(nd: Node) -> bool:
+        return nd.kind == "stmt"
+
     # worklist
     init: State = (ALL, False)
     work = [(g.entry.id, init)]
@@ -945,8 +974,10 @@ def rule_S1(ctx) -> None:
             s2: Optional[State] = out
             if nd.kind == "test" and isinstance(nd.stmt, ast.If) and lab in ("true", "false"):
                 s2 = refine(nd.stmt.test, out, lab == "true")
-            if nd.kind == "loop" and nd in heads and lab == "iter":
-                advance_states.add(out)
+            if nd.kind == "loop" and isinstance(nd.stmt, ast.While) and lab in ("iter", "done"):
+                s2 = refine(nd.stmt.test, out, lab == "iter")
+            if any(nd is a and (al is None or al == lab) for a, al in sites):
+                advance_states.add(s if al_is_stmt(nd) else out)
             if s2 is not None:
                 work.append((m_, s2))
     ctx.count(steps)
